@@ -184,6 +184,19 @@ SINGLE_OPTIONS = [
 ]
 
 
+def frequency_sweep():
+    """models x -f {absent, equal, empirical, explicit} x sub-commands: what is estimated vs fixed must follow the model"""
+    base = {"categories": 1, "invariant": False, "clock": None, "heights": "ratio", "treeprior": None,
+            "grid": None, "cutoff": None, "family": "meanfield", "distribution": "Normal", "init": None}
+    for model in ("JC69", "K80", "HKY", "SYM", "GTR"):
+        for f in (None, "equal", "empirical", "0.1,0.2,0.3,0.4"):
+            for cmd in FACTORS["cmd"]:
+                c = dict(base, cmd=cmd, model=model)
+                if f is not None:
+                    c["extra"] = ["--frequencies", f]
+                yield c
+
+
 def single_options():
     base = {"model": "JC69", "categories": 1, "invariant": False, "clock": None, "heights": "ratio", "treeprior": None,
             "grid": None, "cutoff": None, "family": "meanfield", "distribution": "Normal", "init": None}
